@@ -15,7 +15,7 @@ from ...module import Module
 from ...external_module import ExternalModuleCall
 from ...instance import _Instance, Instance, InstanceArray, InstanceBundle
 from ...primitives import PrimitiveCall
-from ...bundle import BundleInstance
+from ...bundle import Bundle, BundleInstance
 from ...instantiable import Instantiable
 from ..elaboratable import Elaboratable
 
@@ -180,14 +180,17 @@ class ElabPass:
         """Elaborate an BundleInstance"""
         # Annotate each BundleInstance so that its pre-elaboration `PortRef` magic is disabled.
         inst._elaborated = True
-        # Its `Bundle` definition, and those nested in it, are in use from here on.
-        # As for elaborated Modules, nothing can be added to them any more.
-        defns = [inst.of]
+        self.freeze_bundle(inst.of)
+        return inst
+
+    def freeze_bundle(self, bundle: Bundle) -> None:
+        """A `Bundle` definition, and those nested in it, are in use from here on.
+        As for elaborated Modules, nothing can be added to them any more."""
+        defns = [bundle]
         while defns:
             defn = defns.pop()
             defn._elaborated = True
             defns.extend(sub.of for sub in defn.bundles.values())
-        return inst
 
     def elaborate_instance_base(self, inst: _Instance) -> Instantiable:
         """Elaborate a Module Instance, Array or Bundle thereof."""
@@ -195,6 +198,9 @@ class ElabPass:
         self.stack.append(inst)
         # Turn off `PortRef` magic
         inst._elaborated = True
+        if isinstance(inst, InstanceBundle):
+            # The `Bundle` its members are named after is in use too
+            self.freeze_bundle(inst.bundle)
         # And visit the Instance's target
         rv = self.elaborate_instantiable(inst.of)
         self.stack.pop()
